@@ -234,3 +234,33 @@ package experiment
 //@     invariant trialObserver != nil ==> gStartedFor == run && gFinishedFor == run - 1 && gNotified == generationId
 //@     invariant len(e.Trials) == opts.NumRuns && e.Trials != nil && !isNilIface(epochExecutor)
 //@     invariant forall r :: 0 <= r && r < run ==> e.Trials[r].Id == r
+
+// ---- C19: more aggregates recomputed from the recorded generations ---------------------------------------
+//@ func (*Trial).ChampionSpeciesAges
+//@   props C19
+//@   requires t != nil
+//@   modifies nothing
+//@   ensures [len] len(result) == len(t.Generations) && fresh(result)
+//@   ensures [def] forall i :: 0 <= i && i < len(t.Generations) ==> result[i] == ((t.Generations[i].Champion != nil && t.Generations[i].Champion.Species != nil) ? real(t.Generations[i].Champion.Species.Age) : 0.0)
+//@   loop 1:
+//@     invariant -1 <= #idx && #idx < len(t.Generations) && len(x) == len(t.Generations) && fresh(x)
+//@     invariant forall i :: 0 <= i && i <= #idx ==> x[i] == ((t.Generations[i].Champion != nil && t.Generations[i].Champion.Species != nil) ? real(t.Generations[i].Champion.Species.Age) : 0.0)
+//@     invariant forall i :: #idx < i && i < len(x) ==> x[i] == 0.0
+// An experiment is solved iff one of its trials has a solved generation.
+//@ func (*Experiment).Solved
+//@   props C19
+//@   requires e != nil
+//@   modifies nothing
+//@   ensures [none] !result ==> (forall i, k :: 0 <= i && i < len(e.Trials) && 0 <= k && k < len(e.Trials[i].Generations) ==> !e.Trials[i].Generations[k].Solved)
+//@   ensures_local [some] result ==> 0 <= #idx1 && #idx1 < len(e.Trials) && (exists k :: 0 <= k && k < len(e.Trials[#idx1].Generations) && e.Trials[#idx1].Generations[k].Solved)
+//@   loop 1:
+//@     invariant -1 <= #idx && #idx < len(e.Trials)
+//@     invariant forall i, k :: 0 <= i && i <= #idx && 0 <= k && k < len(e.Trials[i].Generations) ==> !e.Trials[i].Generations[k].Solved
+// Mean number of species per trial: the i-th entry is the Mean (gonum's definition, see Floats.Mean) of trial i's diversity series.
+//@ func (*Experiment).AvgDiversity
+//@   props C19
+//@   requires e != nil
+//@   modifies nothing
+//@   ensures [len] len(result) == len(e.Trials) && fresh(result)
+//@   loop 1:
+//@     invariant -1 <= #idx && #idx < len(e.Trials) && len(x) == len(e.Trials) && fresh(x)
